@@ -14,6 +14,9 @@ HERE = os.path.dirname(os.path.abspath(__file__))
 _spec = importlib.util.spec_from_file_location('c18_lowering', os.path.join(HERE, 'lowering.py'))
 L = importlib.util.module_from_spec(_spec)
 _spec.loader.exec_module(L)
+_spec2 = importlib.util.spec_from_file_location('c18_memstore', os.path.join(HERE, 'memstore.py'))
+MS = importlib.util.module_from_spec(_spec2)
+_spec2.loader.exec_module(MS)
 
 QT = os.path.join(VERIF, 'qtmodel')
 SRC = 'src/client/QXmppAtmManager.cpp'
@@ -254,11 +257,19 @@ def build(work, tier):
           note='postponed decisions of the listed sender keys are removed and handed to makeTrustDecisions; decisions of other sender keys stay (input class of finding C18-F1 excluded)')
     alltext.append(rd('lemma.h'))
 
+    # ---- storage side: two of the assumed storage contracts are verified on the real memory storages (bounded stand-in)
+    sproofs, sfunctions, sfired, sdropped, _ = MS.build(work, L, tier)
+    proofs.extend(sproofs)
+    for k, v in sfired.items():
+        b.fired[k] = b.fired.get(k, 0) + v
+    b.dropped.extend(sdropped)
+    b.functions.extend(sfunctions)
+
     return {
         'proofs': proofs, 'functions': b.functions, 'dropped': b.dropped, 'fired': b.fired,
         'hooks': [h['id'] + ' (' + h['fn'] + ', at function entry): ' + h['emit'] for h in hooks],
         'assumed': ASSUMED,
-        'assumes': scan_assumes(rd('model.h') + rd('storage.h') + rd('calls.h') + rd('lemma.h') + open(os.path.join(QT, 'opaque.h')).read()),
+        'assumes': scan_assumes(rd('model.h') + rd('storage.h') + rd('calls.h') + rd('lemma.h') + rd('memstore.h') + open(os.path.join(QT, 'opaque.h')).read()),
         'not_covered': NOT_COVERED,
     }
 
@@ -271,6 +282,7 @@ ASSUMED = [
     'NAMED_T / NAMED_D ("the message names key g_k of owner g_o as trusted / distrusted") are defined by quantification over the abstract message; their introduction is instantiated where an element is read, their elimination names Skolem indices (definitional, units/C18/model.h)',
     'ASSUMED contracts of QXmppTrustManager::trustLevel / setTrustLevel (both overloads) / securityPolicy and of QXmppAtmTrustStorage::addKeysForPostponedTrustDecisions / removeKeysForPostponedTrustDecisions (by sender keys; by key ids) / keysForPostponedTrustDecisions over the abstract view trust[(encryption, owner, key)], postponed[(encryption, sender key, owner, key)] (units/C18/storage.h); QXmppTrustMemoryStorage / QXmppAtmTrustMemoryStorage are not verified against them',
     'the same operations called on the storage itself (QXmppTrustStorage::setTrustLevel / trustLevel) have the same effect; the answer of setTrustLevel is the set of keys whose level was really modified, possibly empty (STL_ANSWER); keysForPostponedTrustDecisions with an EMPTY sender-key list answers the decisions of ALL sender keys (documented in QXmppAtmTrustStorage.cpp, implemented so by QXmppAtmTrustMemoryStorage)',
+    'A-QMULTIHASH (units/C18/memstore.h, storage stand-ins only): a multi hash iterates as a sequence in which items with equal keys are adjacent; find / end / ++ / key / value / insert / equal_range act on that sequence; std::find_if(first, last, pred) is the loop it stands for; setTrustLevel(owners, old, new) is only used with old != Undecided (a key that is not stored reads as Undecided but is not created by it)',
     'trustLevelsChanged is a synchronous notification with no effect on the manager or the storage',
     'a continuation of authenticate / makePostponedTrustDecisions runs in the round whose call record (G_auth / G_mp) was written when the function was entered (no other round of the same function in between)',
     'trustStorage() returns the ATM trust storage the manager was constructed with (non-null)',
@@ -279,7 +291,7 @@ ASSUMED = [
     'the value delivered to a continuation is the answer of the operation it was registered on: the trust level of (encryption, sender account, sender key) for trustLevel(); GET_ANSWER (units/C18/storage.h) for keysForPostponedTrustDecisions()',
 ]
 NOT_COVERED = [
-    'the storage implementations QXmppTrustMemoryStorage / QXmppAtmTrustMemoryStorage and QXmppTrustManager\'s wrappers (entered as assumed contracts only)',
+    'the storage implementations QXmppTrustMemoryStorage / QXmppAtmTrustMemoryStorage and QXmppTrustManager\'s wrappers (assumed contracts), EXCEPT QXmppAtmTrustMemoryStorage::addKeysForPostponedTrustDecisions and QXmppTrustMemoryStorage::setTrustLevel(owners form), which are checked against the assumed effect clauses by a BOUNDED stand-in only (<= 3 stored entries, <= 1 key owner in the quick tier / 2 in the thorough tier, <= 1 key per list; not counted as proved)',
     'the recursion authenticate -> makePostponedTrustDecisions -> makeTrustDecisions -> authenticate as a terminating whole (each level is verified against the contract of the next; no variant is proved)',
     'the history statement: sequences of trust messages and manual decisions checked against an XEP-0450 reference model after every step (only the per-function mechanisms and one level of each continuation chain are decided)',
     'the manual overload makeTrustDecisions(encryption, keyOwnerJid, keyIdsForAuthentication, keyIdsForDistrusting) and sendTrustMessage (which trust messages are sent to whom)',
@@ -306,6 +318,12 @@ def _run_native(driver, arg):
 
 
 def find_input(unit, p, o, lab, work):
+    if p.id.startswith('Mem_'):
+        rc, out = _run_native('replay_memory_storage.cpp', 'all')
+        m = re.search(r'VIOLATED scenario=(\d+)[^\n]*', out)
+        if rc == 1 and m:
+            return {'inputs': {'driver': 'replay_memory_storage.cpp', 'arg': 'all', 'what': m.group(0)}, 'reproduced': True, 'native_output': out[-3000:]}
+        return None
     if getattr(p, 'finding', None):
         rc, out = _run_native('replay_postponed_discarded_early.cpp', 'all')
         if rc == 1 and 'VIOLATED' in out:
